@@ -23,6 +23,28 @@ M = {
  "C18": ("thread frame walk pops a saved frame on every hop (dropped dq == dtf_queue test)", "dispatch_sync from inside another queue context, assertion about a submitting queue that is not drain-locked by the caller", "L-fn assert differential (QueueP.assertAccepts)", False),
  "C19": ("timed-out dispatch_block_wait stores the flag snapshot back (overwrites DBF_CANCELED)", "cancel from another thread during a timed wait that times out", "tr_block oracle (testcancel 0 after cancel); L-trace (flags transition by a store instead of an and)", False),
 }
+M2 = {
+ "C01": ("DC_FLAG_BARRIER kept on a dispatch_sync waiter redirected to a concurrent target whose width could not be reserved", "a queue whose target is a non-root concurrent queue, a parked dispatch_sync caller handed the queue while the target is not reservable", "lane storm with chained queues (serial queue targeting the concurrent one): hang / stranded items", True),
+ "C02": ("dispatch_async_and_wait of a block object created without DISPATCH_BLOCK_BARRIER reaches a serial queue without the barrier flag", "dispatch_async_and_wait (block form) with dispatch_block_create blocks on an idle serial queue from two threads", "lane storm with block-object submissions: library trap / overlap", True),
+ "C03": ("queues whose target is a workloop or the main queue get role BASE instead of INNER", "hierarchy whose bottom is a workloop / the main queue, dispatch_sync slow path on the queue directly above it", "hierarchy storm with workloop bottoms (possible only after the F16 repair): overlap / hang", True),
+ "C04": ("_dispatch_apply_redirect relinquishes more width than it reserved", "dispatch_apply on a concurrent queue with fewer free reader slots than it wants, then a barrier", "lane storm: barrier order oracle", False),
+ "C05": ("timed-out / polling dispatch_semaphore_wait re-increments unconditionally (a signal yields two permits)", "a signal landing between the waiter's decrement and its undo, then a blocking wait", "c05_hb polling consumer over sequentially written slots", True),
+ "C06": ("_dispatch_lane_barrier_complete ignores suspension when handing the queue to the waiter at the head", "a synchronously running barrier item suspends its own queue while a blocked dispatch_sync caller / async items are queued", "c06_suspend scenarios 4 and 5", True),
+ "C07": ("a dispatch_group_wait that times out clears DISPATCH_GROUP_HAS_WAITERS", "two waiters on one generation, one timing out before the count reaches zero", "tr_group mixed mode; GroupP replay (transition not a step)", True),
+ "C08": ("_dispatch_sema4_timedwait treats EINTR as a timeout", "a timed wait interrupted by a signal handler installed without SA_RESTART", "tr_sema with interruptions: non-zero before the timeout elapsed", False),
+ "C09": ("_dispatch_once_wait does a single compare-and-swap instead of the retry loop", "an owner inside the initialiser and two waiters racing to set the waiters bit", "tr_once racing-callers oracle", False),
+ "C10": ("_dispatch_apply_redirect does not relinquish the width reserved on upper levels when a lower level grants none", "dispatch_apply on a concurrent queue targeting a serial one, then a barrier and another apply", "tr_apply with barriers on the chained queues: hang", True),
+ "C11": ("_dispatch_timer_unote_configure clears pending data only when the timer is not armed", "dispatch_source_set_timer while one firing of the old schedule is latched behind a busy target queue", "c11_timers latched-firing scenario (single firing, timer still armed)", True),
+ "C12": ("dispatch_time wall arm returns -(int64_t)value without the range check", "wall-clock base plus a positive delta of 89 to 292 years", "L-fn differential against Core/Time.lean", False),
+ "C13": ("_dispatch_data_copy_region accumulates the 'from' of skipped records", "copy_region at a location in a later record of a concatenation whose earlier record is a front-trimmed subrange", "L-fn differential against DataP", False),
+ "C14": ("write branch of deliver_data trims by buf_len (already zeroed) instead of buf_siz", "a multi-buffer write of a fragmented data object where a buffer is used up below the low-water mark", "c14_io write rounds with fragmented data and water marks; L-fn write differential against IoW", True),
+ "C15": ("latch by load + store instead of an atomic exchange", "a merge from another CPU between the load and the store", "tr_source conservation oracle", False),
+ "C16": ("dispatch_source_cancel wakes the source without DISPATCH_WAKEUP_MAKE_DIRTY", "a cancel from a foreign thread while the manager holds the source's drain lock, on a descriptor that stays quiet", "c16_cancel quiet-descriptor trials with perturbation on the source's atomic sites", True),
+ "C17": ("the new target is retained only when the deferred change of target runs", "dispatch_set_target_queue on a busy queue, the new target released before the deferred barrier runs", "c17_life retarget scenario on hooked and ASan builds (use after free / trap)", True),
+ "C18": ("sync waiter context records the waited-on queue instead of the submitted-to queue", "dispatch_sync onto a queue above a thread-bound queue (main queue drained run-loop style) from another thread", "c18_bound oracle", True),
+ "C19": ("a cancelled block object invoked directly returns without counting as performed", "a block cancelled before it starts, executed by a plain call, observed by wait / notify", "tr_block oracle", False),
+ "C20": ("_dispatch_data_subrange_map accepts a short sub-range", "input whose final element is cut short by the end of the data", "L-fn differential (NULL expected) + ASan", False),
+}
 root = os.path.join(os.path.dirname(os.path.dirname(os.path.abspath(__file__))), "seeded")
 for k, (what, needs, caught, strengthened) in sorted(M.items()):
     d = os.path.join(root, k)
@@ -34,4 +56,14 @@ for k, (what, needs, caught, strengthened) in sorted(M.items()):
                "check_run": "git -C /repo apply /verif/seeded/%s/patch.diff; ./check %s; git -C /repo checkout -- ." % (k, k),
                "caught_by": caught, "tier": "quick", "check_strengthened_because_of_this_seed": strengthened},
               open(os.path.join(d, "meta.json"), "w"), indent=1)
-print("meta.json written for", len(M), "seeds")
+root2 = os.path.join(os.path.dirname(root), "seeded2")
+for k, (what, needs, caught, strengthened) in sorted(M2.items()):
+    d = os.path.join(root2, k)
+    lines = open(os.path.join(d, "confirm.log")).read().strip().splitlines() if os.path.exists(os.path.join(d, "confirm.log")) else []
+    json.dump({"property": k, "round": 2, "change": what, "needs_to_manifest": needs,
+               "produced_by": "sub-agent given the property text, its own scratch worktree, and a one-line description of the first-round seed to avoid",
+               "confirmed": {"how": "scripts/confirm_seed.sh %s seeded2/%s" % (k, k), "result": " | ".join(lines[-2:]) or "not confirmed"},
+               "check_run": "git -C /repo apply /verif/seeded2/%s/patch.diff; ./check %s; git -C /repo checkout -- ." % (k, k),
+               "caught_by": caught, "tier": "quick", "missed_at_first_and_check_strengthened": strengthened},
+              open(os.path.join(d, "meta.json"), "w"), indent=1)
+print("meta.json written for", len(M), "+", len(M2), "seeds")
